@@ -14,6 +14,7 @@ the name the first request's context id comes from.  The two flavours differ the
 of root_key_id), so that pair is NOT in TWINS; the model takes the EPM request's context id from the flavour's kernel."""
 import ast
 
+from ..flow import Flow
 from ..kernels import Kernel as K, Unsupported, _walk_own
 
 Z, B, S = "Z", "bool", "list Z"
@@ -212,4 +213,12 @@ CONSTS = [
     ("c_onl_getkey_opnum", _G, "GetKey(b'').opnum", "Z"),
     ("c_onl_default_port", "dpapi_ng._rpc._client", "create_rpc_connection.__defaults__[0]", "Z"),
     ("c_onl_provider_ids", "dpapi_ng._rpc._pdu", "[int(SecurityProvider.RPC_C_AUTHN_GSS_NEGOTIATE), int(SecurityProvider.RPC_C_AUTHN_WINNT), int(SecurityProvider.RPC_C_AUTHN_GSS_KERBEROS)]", "bytes"),
+]
+
+# whole functions as Prelude/PyAst syntax (gen/F_online.v); world coq/Flow/World_online.v, tie theorems coq/Proofs/Flow_online_conv.v
+FLOWS = [
+    Flow("k_flow_process_ept_map_result", F, "_process_ept_map_result", props=P),
+    Flow("k_flow_process_get_key_result", F, "_process_get_key_result", props=P),
+    Flow("k_flow_sync_get_key", F, "_sync_get_key", props=P),
+    Flow("k_flow_async_get_key", F, "_async_get_key", props=P),
 ]
